@@ -89,36 +89,99 @@ def _with_src(items) -> str:
             out.append("{{ " + it[1] + " }},")
         elif it[0] == "assign":
             out.append("{% assign " + it[1] + " = '" + it[2] + "' %}")
+        elif it[0] == "loop":
+            out.append("{% for i in (1.." + str(it[1]) + ") %}" + _with_src(it[2]) + "{% endfor %}")
+        elif it[0] in ("break", "continue"):
+            # leave the enclosing loop (through any with blocks in between) on the given iteration
+            out.append("{% if i == " + str(it[1]) + " %}{% " + it[0] + " %}{% endif %}")
         else:
             args = ", ".join(f"{k}: {('\'' + e[1] + '\'') if e[0] == 'lit' else e[1]}" for k, e in it[1])
             out.append("{% with " + args + " %}" + _with_src(it[2]) + "{% endwith %}")
     return "".join(out)
 
 
-def _with_expected(items, scopes: list, top: dict) -> str:
+class _Interrupt(Exception):
+    def __init__(self, kind: str):
+        super().__init__(kind)
+        self.kind = kind
+
+
+def _with_expected(items, scopes: list, top: dict, out: list | None = None) -> str:
+    """Reference scope model; output goes to ``out`` so that text written before a break/continue survives it."""
+
     def lookup(name):
         for sc in reversed(scopes):
             if name in sc:
                 return sc[name]
         return top.get(name, "")
 
-    out = []
+    first = out is None
+    if out is None:
+        out = []
     for it in items:
         if it[0] == "read":
             out.append(str(lookup(it[1])) + ",")
         elif it[0] == "assign":
             top[it[1]] = it[2]  # assign always writes the template's top-level scope
+        elif it[0] == "loop":
+            for i in range(1, it[1] + 1):
+                scopes.append({"i": i})
+                try:
+                    _with_expected(it[2], scopes, top, out)
+                except _Interrupt as intr:
+                    if intr.kind == "break":
+                        break
+                finally:
+                    scopes.pop()
+        elif it[0] in ("break", "continue"):
+            if lookup("i") == it[1]:
+                raise _Interrupt(it[0])
         else:
             new = {k: (e[1] if e[0] == "lit" else lookup(e[1])) for k, e in it[1]}
             scopes.append(new)
-            out.append(_with_expected(it[2], scopes, top))
-            scopes.pop()
-    return "".join(out)
+            try:
+                _with_expected(it[2], scopes, top, out)
+            finally:
+                scopes.pop()  # however the block is left, its names go with it
+    return "".join(out) if first else ""
+
+
+SEP = "|#|"
+
+
+def _macro_seq_src(case) -> tuple[str, dict]:
+    one, data = _macro_case_src({"params": case["params"], "call": case["calls"][0]})
+    head = one[: one.index("{% call m")]
+    calls = []
+    for call in case["calls"]:
+        src, _ = _macro_case_src({"params": case["params"], "call": call})
+        calls.append(src[src.index("{% call m"):])
+    return head + SEP.join(calls), data
 
 
 def evaluate(case) -> Verdict:
     v = Verdict()
     env = envs.make_env(CFG)
+    if case["kind"] == "macro_seq":
+        # several calls of one macro in one render: each binds its own arguments, nothing carries over
+        src, data = _macro_seq_src(case)
+        o = oc.outcome_of(lambda: env.from_string(src).render(**data))
+        if o[0] != "ok":
+            v.fail(f"macro-seq:raises:{o[1]}", f"{src} -> {oc.short(o)}")
+        else:
+            parts = o[1].split(SEP)
+            wants = [_macro_expected({"params": case["params"], "call": call}) for call in case["calls"]]
+            if len(parts) != len(wants):
+                v.fail("macro-seq:shape", f"{src}\n   observed {o[1]!r}")
+            else:
+                for i, (got, want) in enumerate(zip(parts, wants)):
+                    if got not in want:
+                        v.fail("macro-seq:call-depends-on-earlier-call" if i else "macro-seq:first-call", f"{src}\n   call {i + 1}: expected {want[0]!r}\n   observed {got!r}")
+                        break
+        v.nontrivial = len({str(c) for c in case["calls"]}) >= 2
+        v.labels.append("macro-seq")
+        v.info = src
+        return v
     if case["kind"] == "macro":
         src, data = _macro_case_src(case)
         want = _macro_expected(case)
@@ -158,7 +221,7 @@ def evaluate(case) -> Verdict:
 
 
 def _depth(items) -> int:
-    return max([0] + [1 + _depth(it[2]) for it in items if it[0] == "with"])
+    return max([0] + [(1 if it[0] == "with" else 0) + _depth(it[2]) for it in items if it[0] in ("with", "loop")])
 
 
 # ---------------------------------------------------------------------------
@@ -183,22 +246,40 @@ def macro_cases(tier: str):
 
 
 @st.composite
+def macro_seq_cases(draw):
+    r = core.rng(draw)
+    nparams = r.randint(0, 3)
+    params = [[n, r.choice([None, None, "d", "var"])] for n in PARAMS[:nparams]]
+
+    def call():
+        pos = [["pos", f"a{r.randint(0, 9)}"] for _ in range(r.choice([0, 0, 1, 2, 3]))]
+        kws = [["kw", r.choice(PARAMS[:nparams] + ["z"]), f"k{r.randint(0, 9)}"] for _ in range(r.choice([0, 0, 1, 2]))]
+        return pos + kws
+
+    return {"kind": "macro_seq", "params": params, "calls": [call() for _ in range(r.choice([2, 3, 3]))]}
+
+
+@st.composite
 def with_cases(draw):
     r = core.rng(draw)
     names = ["a", "b", "c"]
 
-    def items(depth):
+    def items(depth, in_loop=False):
         out = []
         for _ in range(r.randint(1, 4)):
             c = r.random()
-            if c < 0.45 or depth == 0:
+            if in_loop and c < 0.12:
+                out.append([r.choice(["break", "continue"]), r.choice([1, 2])])
+            elif c < 0.45 or depth == 0:
                 out.append(["read", r.choice(names)])
             elif c < 0.55:
                 out.append(["assign", r.choice(names), r.choice(["s1", "s2"])])
+            elif c < 0.7 and not in_loop:
+                out.append(["loop", r.choice([1, 2, 3]), items(depth - 1, True)])
             else:
                 ks = r.sample(names, r.randint(1, 3))
                 args = [[k, (["lit", f"w{depth}{k}"] if r.random() < 0.5 else ["var", r.choice(names)])] for k in ks]
-                out.append(["with", args, items(depth - 1)])
+                out.append(["with", args, items(depth - 1, in_loop)])
         return out
 
     return {"kind": "with", "items": items(3)}
@@ -210,6 +291,7 @@ def campaign(ctx: core.Ctx, tier: str, shard: int, nshards: int) -> None:
         if i % nshards == shard:
             ctx.run(case, enumerated=True)
     core.drive(with_cases(), ctx.run, n=(3000 if quick else 40000) // nshards, seed=core.sub_seed(ctx.seed, shard))
+    core.drive(macro_seq_cases(), ctx.run, n=(2000 if quick else 30000) // nshards, seed=core.sub_seed(ctx.seed, shard, 1))
 
 
 def finish_kwargs(ctx: core.Ctx, tier: str) -> dict:
@@ -221,7 +303,9 @@ def finish_kwargs(ctx: core.Ctx, tier: str) -> dict:
             + " keyword arguments named after any parameter or a foreign name (duplicates included, keywords before "
             "positionals in thorough); the body prints every parameter, args and kwargs and is compared with a "
             "reference binder. Random nested with blocks (depth <= 3) over 3 names with arguments referring to "
-            "outer names, reads inside and after each block and interleaved assigns, against a scope-stack model. "
+            "outer names, reads inside and after each block and interleaved assigns, also inside for loops that are left "
+            "by break or continue from within a with block, against a scope-stack model. Random sequences of 2-3 calls "
+            "of one macro in one render, each compared with the binder on its own. "
             "Non-trivial (macro) = surplus arguments, a default fallback or a keyword overriding a positional."
         ),
         "exhaustive": True,
